@@ -12,7 +12,7 @@ CLAIMED = {
         "minimal strings are unique encodings, decoder = sign-magnitude value for every byte string, the checking constructor rejects exactly "
         "over-long and (when required) non-minimal strings, n-byte strings <-> |v|<2^(8n-1), Value conversions are this codec. The hand-written "
         "model is tied to script/script.h and value.h by executing vh (tree's code) and the extracted model on all byte strings of length 0..2 "
-        "(0..3 thorough) x both minimality settings, stratified 3..9-byte strings and integer bands/boundaries up to +-2^63.",
+        "(thorough: also every 3-byte string whose last byte is one of 16 boundary/random values) x both minimality settings, stratified 3..9-byte strings and integer bands/boundaries up to +-2^63.",
    note=TB + "Modelled, not verified: the C++ bit operations are written arithmetically in the model (stated in ScriptNum.v); the tie is the exhaustive/stratified differential run.",
    technique="Coq proof (induction on byte lists, lia/nia) + exhaustive differential correspondence against extracted model",
    ref="DESIGN.md §2 C18"),
@@ -75,9 +75,10 @@ CLAIMED = {
         "is refused), initial stack/script/control block/annex/validation weight are the ones BIP141/341 prescribe. WHOLE-SESSION THEOREM for "
         "legacy inputs (script-only, scriptSig+scriptPubKey, P2SH): running the session to its end (continue) ends exactly as the reference "
         "VerifyScript (VerifySpec.v: one EvalScript call per script, each with its own alt stack / op count / code hash, balanced nesting, "
-        "scriptPubKey size limit, P2SH redeem script from the scriptSig's stack) - same final environment and status. NOT proved: the same "
-        "for witness inputs (C03_witness_session_is_validation: the witness program dispatch is covered by the configuration theorems, the run of "
-        "the single witness script by the script-only case). The session outcome is additionally tied by "
+        "scriptPubKey size limit, P2SH redeem script from the scriptSig's stack) - same final environment and status. The same for witness inputs: "
+        "a witness session never takes the P2SH branch, a witness-v0/tapscript script session is one evaluation of the committed script, and a "
+        "P2TR script-path session is the BIP341 commitment check followed - only if it holds - by one evaluation of the revealed script with the "
+        "leaf hash installed (C03_tapscript_session_is_commitment_then_one_evaluation). The session outcome is additionally tied by "
         "correspondence: synthesised pairs of every output type, signed by an independent signer, valid and corrupted, 1..3 inputs, --select, "
         "flag variations, and the six doc/txs pairs; implementation vs model on every case and vs validity-by-construction.",
    note=TB + "Elliptic-curve predicates are an oracle of the model answered by tools/refcrypto.py (independent pure-Python secp256k1); digests are modelled in Sighash.v and cross-checked by tools/gen_spend.py's independent implementation. Known finding F31 (multi-input taproot).",
@@ -177,8 +178,10 @@ CLAIMED = {
         "each flag-dependent check (number minimality, signature and key encoding) passes under A whenever it passes under B >= A; and the "
         "WHOLE STEP: whatever one interpreter step does successfully under a flag set B (any opcode incl. the signature opcodes and "
         "CHECKMULTISIG, any stack, any version, in the script or through exec) it does identically under every subset A of B "
-        "(C09_step_only_restricts). Session-level flags (P2SH phases, SIGPUSHONLY, witness configuration) are outside that theorem and are "
-        "evaluated on paired runs of the implementation under inclusion chains. Tie: -d and -f<list> -v listings (pty), behavioural probes per flag, flag-chain sessions vs model.",
+        "(C09_step_only_restricts); lifted to every EVALUATION (C09_evaluation_only_restricts) and to the WHOLE script-only SESSION run to its "
+        "end (C09_script_session_only_restricts: success under B implies success with the same final environment under A). Multi-script "
+        "sessions are covered per evaluation only: session-level flags (P2SH phases, SIGPUSHONLY, witness configuration) change which scripts "
+        "run and are evaluated on paired runs of the implementation under inclusion chains. Tie: -d and -f<list> -v listings (pty), behavioural probes per flag, flag-chain sessions vs model.",
    note=TB + "svf_string's output separator/bullets are parsed by the check, not modelled.",
    technique="Coq proofs over translator-generated flag tables and sites + CLI correspondence + paired-run monotonicity relation",
    ref="DESIGN.md §2 C09"),
